@@ -1040,6 +1040,42 @@ impl Check for WCheck {
             plan.horizon_ms = t + 1_000;
             plan.actions.sort_by_key(|a| a.t);
         }
+        if self.prop == "C17" {
+            // a fast and a slow uplink under a steady stream well above the classifier's floor:
+            // the slow one is starved and reported share-weak tick after tick; reloads that change
+            // nothing arrive meanwhile (the classifier's history lives in the loop, not in the links)
+            use crate::lsim::plan::{Action, TimedAction};
+            let mut r = crate::prng::Rng::new(run_seed ^ 0xC17_57);
+            plan.cfg.classic = false;
+            plan.cfg.quality = true;
+            plan.actions.retain(|a| matches!(a.kind, Action::Critical { .. }));
+            let n = plan.n_links.max(2);
+            plan.n_links = n;
+            while plan.links.len() < n {
+                let l = plan.links[0].clone();
+                plan.links.push(l);
+            }
+            plan.links.truncate(n);
+            for (i, l) in plan.links.iter_mut().enumerate() {
+                l.loss_up = 0.0;
+                l.loss_down = 0.0;
+                l.dup = 0.0;
+                l.reorder = 0.0;
+                l.jit_ms = 0;
+                l.lat_ms = if i == 0 { r.range(2, 15) } else { r.range(150, 450) };
+            }
+            let secs = r.range(24, 34);
+            let pps = *r.pick(&[40u32, 60, 100]);
+            plan.actions.push(TimedAction { t: 2_500, kind: Action::Burst { n: pps * secs as u32, pps, size_lo: 900, size_hi: 1316, stride: 1 } });
+            let same: String = (0..n).map(|l| format!("{}\n", crate::lsim::path_ip(l))).collect();
+            let mut t = 2_500 + r.range(3_000, 9_000);
+            while t < 2_500 + secs * 1000 {
+                plan.actions.push(TimedAction { t, kind: Action::Reload { text: Some(same.clone()) } });
+                t += r.range(3_000, 13_000);
+            }
+            plan.horizon_ms = 2_500 + secs * 1000 + 1_500;
+            plan.actions.sort_by_key(|a| a.t);
+        }
         if self.prop == "C19" {
             // 1..4 reloads inside the traffic, at least 2.5 s apart (one housekeeping tick applies each)
             use crate::lsim::plan::{Action, TimedAction, gen_reload_text};
@@ -1131,15 +1167,17 @@ impl Check for Multi {
         self.id
     }
     fn engine(&self) -> &'static str {
-        if self.parts.iter().any(|p| p.engine() == "S") {
-            "T+S"
-        } else if self.parts[0].engine() == "K" {
-            "K+L"
-        } else if self.parts.iter().any(|p| p.engine() == "K") {
-            "L+K"
-        } else {
-            "L+W"
+        let names: Vec<&str> = self.parts.iter().map(|p| p.engine()).collect();
+        let joined = names.join("+");
+        // a handful of combinations exist; leak one small string per distinct combination
+        static SEEN: std::sync::Mutex<Vec<&'static str>> = std::sync::Mutex::new(Vec::new());
+        let mut seen = SEEN.lock().unwrap();
+        if let Some(s) = seen.iter().find(|s| **s == joined) {
+            return s;
         }
+        let leaked: &'static str = Box::leak(joined.into_boxed_str());
+        seen.push(leaked);
+        leaked
     }
     fn level(&self) -> &'static str {
         self.parts[0].level()
@@ -1271,6 +1309,13 @@ pub fn all() -> Vec<Box<dyn Check>> {
         let weight = if prop == "C06" { 300 } else { 6 };
         let w = Box::new(WCheck { prop, runs_quick: wq, runs_thorough: 3000 });
         v.insert(pos, Box::new(Multi { id: prop, parts: vec![first, w], weights: vec![weight, 1] }));
+    }
+    // C17: the classifier's history lives in the event loop: verdicts as published by the real loop
+    {
+        let pos = v.iter().position(|c| c.id() == "C17").unwrap();
+        let k = v.remove(pos);
+        let w = Box::new(WCheck { prop: "C17", runs_quick: 24, runs_thorough: 1500 });
+        v.insert(pos, Box::new(Multi { id: "C17", parts: vec![k, w], weights: vec![800, 1] }));
     }
     // C08: engine L (the whole recovery loop, long horizons) plus the tear-down cause on the real loop
     {
